@@ -320,3 +320,62 @@ def read_ndjson(path):
             if line:
                 res.append(json.loads(line))
     return res
+
+
+# --------------------------------------------------------------------------------------------
+# reports of harness binaries
+
+def load_report(path):
+    if not os.path.exists(path):
+        raise ToolError(f"harness report {path} missing")
+    return json.load(open(path))
+
+
+def handle_failures(prop, failures, replay_name="failure"):
+    """failures: list of {key, what, case}. Prints KNOWN-FINDING lines for listed keys; raises Violation
+    for the first unlisted one (after writing a replay file). Returns number of known-finding hits."""
+    known_hits = {}
+    unknown = []
+    for f in failures:
+        k = match_known(prop, f["key"])
+        if k:
+            known_hits.setdefault(f["key"], []).append(f)
+        else:
+            unknown.append(f)
+    for key, fs in known_hits.items():
+        log(f"KNOWN-FINDING: property={prop} key={key} {fs[0]['what']} ({len(fs)} case(s))")
+    if unknown:
+        f = unknown[0]
+        path = write_replay(prop, replay_name, {"property": prop, "key": f["key"], "what": f["what"],
+                                                "case": f["case"], "others": len(unknown) - 1})
+        raise Violation(prop, f"[{f['key']}] {f['what']}", path)
+    return sum(len(v) for v in known_hits.values())
+
+
+def write_ndjson(path, items):
+    os.makedirs(os.path.dirname(path), exist_ok=True)
+    with open(path, "w") as f:
+        for it in items:
+            f.write(json.dumps(it) + "\n")
+
+
+def tlapm(spec_dir, module, timeout=600):
+    """Runs the TLA+ proof system; returns (obligations, proved, output)."""
+    d = os.path.join(SPECS, spec_dir)
+    cache = os.path.join(d, ".tlacache")
+    shutil.rmtree(cache, ignore_errors=True)
+    try:
+        p = subprocess.run(["tlapm", "--threads", "8", "--cleanfp", module + ".tla"], cwd=d, stdout=subprocess.PIPE,
+                           stderr=subprocess.STDOUT, text=True, timeout=timeout)
+    except subprocess.TimeoutExpired:
+        raise ToolError("tlapm timed out")
+    finally:
+        shutil.rmtree(cache, ignore_errors=True)
+    out = p.stdout
+    m = re.search(r"All (\d+) obligations? proved", out)
+    if m:
+        return int(m.group(1)), int(m.group(1)), out
+    m = re.search(r"(\d+)/(\d+) obligations? failed", out)
+    if m:
+        return int(m.group(2)), int(m.group(2)) - int(m.group(1)), out
+    raise ToolError("tlapm output not understood:\n" + out[-2000:])
